@@ -8,9 +8,8 @@ mode selects from `x` (in units of the destination resolution).
 
 * `roundShift m v k` : `v / 2^k` rounded in mode `m`, with `Int` operations only;
 * `roundDyadic m a e` : `a · 2^e` rounded in mode `m` (`e` of either sign);
-* `roundQ m q` : the same selection from an arbitrary exact rational (the definition the
-  correspondence driver uses as its oracle); `roundShift_eq_roundQ` (in `CnlProofs.RoundCvt`)
-  ties the integer formulas to it.
+* `IsRoundedShift` : the division-free characterisation shared with C08 (`IsRounded`), which pins the
+  value (`roundShift_isRounded` in `CnlProofs.RoundCvt`, uniqueness in `CnlProofs.Rounding`).
 
 Lean core only.
 -/
@@ -29,14 +28,6 @@ def roundShift (m : RoundMode) (v : Int) (k : Nat) : Int :=
 /-- `a · 2^e` rounded to an integer (exact for `e ≥ 0`) -/
 def roundDyadic (m : RoundMode) (a : Int) (e : Int) : Int :=
   if 0 ≤ e then a * 2^e.toNat else roundShift m a (-e).toNat
-
-/-- the integer the mode selects from the exact rational `q` -/
-def roundQ (m : RoundMode) (q : Rat) : Int :=
-  match m with
-  | .floor => q.floor
-  | .truncate => if q < 0 then -((-q).floor) else q.floor
-  | .nearestUp => (q + (1/2 : Rat)).floor
-  | .nearestAway => if q < 0 then -((-q + (1/2 : Rat)).floor) else (q + (1/2 : Rat)).floor
 
 /-- division-free characterisation of `roundShift` (decidable; used for sanity checks):
 `q` is `v / 2^k` rounded in mode `m` -/
